@@ -119,7 +119,7 @@ def run_history(ctx, cls, flavour, base_seed, ops):
                      "after %s the current vertices no longer construct a %s (%s)" % (opname, cls, exc_kind(e)),
                      dict(case, step=step), repr(e))
             return
-        live = sc.observe(obj)
+        live = sc.observe(obj, np.random.default_rng([int(base_seed), step, len(ops)]))
         diffs = sc.compare(live, sc.observe(fresh), size)
         if diffs:
             ctx.fail("%s:stale:%s" % (opname, diffs[0][0]),
@@ -455,7 +455,8 @@ def run(ctx):
     rng = ctx.rng
     quick = ctx.tier == "quick"
     for cls in sc.VERTEX_CLASSES:
-        for flavour in (("regular", "generic", "triangulated") if cls == "Polyhedron" else ("regular", "generic")):
+        for flavour in (("regular", "generic", "triangulated", "triangulated-shuffled") if cls == "Polyhedron"
+                        else ("regular", "generic")):
             base_seed = int(rng.integers(1 << 30))
             probe = sc.base_shape(np.random.default_rng(base_seed), cls, flavour)
             alpha = alphabet(probe)
@@ -494,6 +495,20 @@ def run(ctx):
                         ctx.count("extra-diagonalize")
                         run_history(ctx, cls, flavour, bs, ops)
                         model_history(ctx, bs, flavour, ops, cls)
+            if cls == "Polyhedron" and flavour == "triangulated-shuffled":
+                # merge_faces / sort_faces depend on accidents of labelling and face order (global flip needed or not,
+                # start face): more base shapes, with every cached observable read before AND after (run_history does)
+                for _ in range(int((10 if quick else 60) * ctx.widen)):
+                    bs = int(rng.integers(1 << 30))
+                    for ops in ([["call", "merge_faces", None]],
+                                [["call", "sort_faces", None], ["call", "merge_faces", None], ["setfac", "volume", 0.5]],
+                                [["setfac", "surface_area", 2.0], ["call", "merge_faces", None], ["call", "to_hoomd", None],
+                                 ["call", "sort_faces", None]]):
+                        case = {"cls": cls, "flavour": flavour, "base_seed": bs, "ops": ops}
+                        ctx.case(case)
+                        ctx.count("cls:" + cls)
+                        ctx.count("extra-merge")
+                        run_history(ctx, cls, flavour, bs, ops)
             if cls.startswith("ConvexSphero"):
                 # the rounding-radius guard (negative / nan refused, zero accepted) and a rescale after it
                 for extra in ([["setabs", "radius", -1.0]], [["setabs", "radius", float("nan")]],
